@@ -305,8 +305,9 @@ package parquet
 //@ pred hdrIs(h, p) := h.CompressedPageSize == phComp(srcB, p) && h.DataPageHeader != nil && h.DataPageHeader.NumValues == phNV(srcB, p)
 
 //@ func PageHeadersAtOffset
-//@   requires external(r) && n >= 0
-//@   requires forall u in 0..9223372036854775808: phIsData(srcB, pagePos(srcB, o, u)) && phNV(srcB, pagePos(srcB, o, u)) >= 0
+//@   requires external(r)
+//@   free-requires n >= 0
+//@   free-requires forall u in 0..9223372036854775808: phIsData(srcB, pagePos(srcB, o, u)) && phNV(srcB, pagePos(srcB, o, u)) >= 0
 //@   safety[C16] nil-deref
 //@   modifies heap("parquet.readCounter"), srcPos, rfault, vPage, vDefs
 //@   ensures[C10] err == nil ==> (rfault ==> old(rfault))
